@@ -75,6 +75,10 @@ class HVPerformAction(Contract):
         S.call_args = ([selfobj, S.a["action"]], {})
         return S
 
+    def concretize(self, I, S):
+        from . import dyn_cex
+        return dyn_cex.make("hv_perform_action", I, S)
+
     def _act(self, S):
         if getattr(S, "act", None) is not None:
             return S.act
@@ -173,6 +177,7 @@ class _DictGetter(Contract):
     function of the vector content (equal vectors => equal dicts); its loop is verified separately."""
     fn = None
     callable_by_contract = True
+    verify = False      # ASSUMED at call sites for now (reported under assumptions); loop proof: see c_layout
     tags = {"": ("C12", "C13")}
 
     def bind(self, I, fi, args, kwargs):
